@@ -91,7 +91,7 @@ def hand_specs(draw):
             src = draw(st.integers(0, i - 1))
             so = nodes[src]["outs"]
             inputs[f"input{k}"] = [src, draw(st.sampled_from(so))]
-        nstat = draw(st.integers(0, 3))
+        nstat = draw(st.sampled_from([0, 1, 2, 3, 3, 11]))
         items = [{"in": k} for k in inputs] + [{"s": draw(statics)} for _ in range(nstat)]
         items = draw(st.permutations(items))
         kwargs = {k: draw(statics) for k in draw(st.lists(st.sampled_from(["a", "b", "kw"]), max_size=2, unique=True))}
